@@ -47,6 +47,14 @@ std::string textOf(uint64_t seed, int nlines, int maxLineLen, int endings, bool 
 {
 	Prng r(seed);
 	std::string t;
+	{
+		// BOM-less texts that begin like a byte-order mark (U+FEC0..U+FEFE start with EF BB; lone FF / FE / EF):
+		// the BOM probe of text() and lines() has to put every byte it looked at back
+		static const char* NEAR[] = {"\xEF\xBB\xA0", "\xEF\xBB\x80", "\xEF\xBB", "\xEF", "\xFF", "\xFE", "\xFF\x20", "\xFE\x41", "\xEF\xBB\xBE"};
+		Prng rb(mix64(seed, 4242)); // own stream: older plans keep their remaining bytes
+		if (nlines > 0 && rb.below(6) == 0)
+			t += NEAR[rb.below(sizeof NEAR / sizeof NEAR[0])];
+	}
 	for (int i = 0; i < nlines; i++)
 	{
 		size_t len = (size_t)biased(r, 0, maxLineLen, {0, 1, chunk - 2, chunk - 1, chunk, 2 * (chunk - 1), 3 * (chunk - 1), 254, 255, 256, 509, 510});
